@@ -858,6 +858,9 @@ func (b *Reader) ReadString(data *string, tag byte, require bool) error {
 		if err != nil {
 			return fmt.Errorf("read string4 tag:%d error:%v", tag, err)
 		}
+		if int(length) > b.buf.Len() {
+			return fmt.Errorf("read string4 tag:%d error: length %d exceeds the remaining %d bytes", tag, length, b.buf.Len())
+		}
 		buff := b.Next(int(length))
 		*data = string(buff)
 	} else if ty == STRING1 {
@@ -865,6 +868,9 @@ func (b *Reader) ReadString(data *string, tag byte, require bool) error {
 		err = bReadU8(b.buf, &length)
 		if err != nil {
 			return fmt.Errorf("read string1 tag:%d error:%v", tag, err)
+		}
+		if int(length) > b.buf.Len() {
+			return fmt.Errorf("read string1 tag:%d error: length %d exceeds the remaining %d bytes", tag, length, b.buf.Len())
 		}
 		buff := b.Next(int(length))
 		*data = string(buff)
